@@ -7,7 +7,9 @@ From Gopki.Spec Require Import DirInv RegenSpec.
 Import ListNotations.
 
 Inductive hstep := U (o : op) | R (s : strat) (f : option (nat * outcome))
-  | C (f : flags) (input : option bytes).   (* the command line: flags and what is typed at the prompt (None = end of input) *)
+  | C (f : flags) (input : option bytes)    (* the command line: flags and what is typed at the prompt (None = end of input) *)
+  | CF (f : flags) (k : keep).              (* the command line (answer y) under a file-size limit of the operating system: the first
+                                               artifact write is cut after 512 octets - [k] says which parts survive - and fails *)
 
 (* result code, aliases written in order, per entity: alias and flags
    [has hash; has cert; has key; has request; cert matches key; cert chains to issuer's current cert; cert matches request;
@@ -53,6 +55,15 @@ Fixpoint insert_nat (x : nat) (l : list nat) : list nat :=
   match l with [] => [x] | y :: r => if Nat.leb x y then x :: l else y :: insert_nat x r end.
 Definition sort_nat (l : list nat) : list nat := fold_right insert_nat [] l.
 
+Definition cli_sign_cut (d : dir) (f : Cli.flags) (k : keep) : cli_result * dir * list alias :=
+  if negb (is_consistent (d_ents d)) then (CliOpenError, d, []) else
+  let s := strat_of_flags f in
+  if negb (s_any s) then (CliNothingToDo, d, []) else
+  match plan cur_csr (d_ents d) s with
+  | None => (CliPlanError, d, [])
+  | Some _ => let '(r, d', w) := run cur_csr cur_nilcert d s (Some (0, Torn k)) in (CliDone r, d', w)
+  end.
+
 Fixpoint exec (d : dir) (ss : list hstep) : list obsT :=
   match ss with
   | [] => []
@@ -61,6 +72,8 @@ Fixpoint exec (d : dir) (ss : list hstep) : list obsT :=
                   (run_code d res, w, observe (d_ents d) d') :: exec d' r
   | C f inp :: r => let '(res, d', w) := cli_sign cur_csr cur_nilcert d f inp in
                     (cli_code res, sort_nat w, observe (d_ents d) d') :: exec d' r
+  | CF f k :: r => let '(res, d', w) := cli_sign_cut d f k in
+                   (cli_code res, sort_nat w, observe (d_ents d) d') :: exec d' r
   end.
 
 Fixpoint lb_eqb (a b : list bool) := match a, b with [], [] => true | x :: a', y :: b' => Bool.eqb x y && lb_eqb a' b' | _, _ => false end.
@@ -95,6 +108,8 @@ Fixpoint spec_trace (d : dir) (ss : list hstep) (i : nat) : list (nat * nat) :=
                   ++ spec_trace d' r (S i)
   | C f inp :: r => let '(_, d', _) := cli_sign cur_csr cur_nilcert d f inp in
                     (if dir_inv d' then [] else [(i, 1)]) ++ spec_trace d' r (S i)
+  | CF f k :: r => let '(_, d', _) := cli_sign_cut d f k in
+                   (if dir_inv d' then [] else [(i, 1)]) ++ spec_trace d' r (S i)
   end.
 
 (* ---- the property statements evaluated directly on what the implementation left behind (no model involved):
@@ -155,6 +170,7 @@ Definition rules_at (prev : option (hstep * obsT)) (st : hstep) (o : obsT) : lis
     (* a command-line run is a run: rules 1, 3, 4 and 8 apply to what it leaves behind (rule 2 is stated for library runs, the
        command line repeats a run only after the prompt) *)
     ++ filter (fun r => negb (Nat.eqb r 2)) (run_rules prev (strat_of_flags f) None o)
+  | CF _ _ => let '(res, _, _) := o in if Nat.eqb res 3 then [8] else []
   | R s f => run_rules prev s f o
   end.
 
@@ -182,6 +198,8 @@ Fixpoint rule7 (d : dir) (ss : list hstep) (os : list obsT) (i : nat) : list (na
                  (d', (run_code d r, mw, observe (d_ents d) d'), if has f then None else Some s)
       | C f inp => let '(r, d', mw) := cli_sign cur_csr cur_nilcert d f inp in
                    (d', (cli_code r, sort_nat mw, observe (d_ents d) d'), Some (strat_of_flags f))
+      | CF f k => let '(r, d', mw) := cli_sign_cut d f k in
+                  (d', (cli_code r, sort_nat mw, observe (d_ents d) d'), None)
       end in
     (match sopt with
      | Some s => if Nat.eqb res 1 && negb (ln_eqb (sort_nat w) (spec_written d s)) then [(i, 7)] else []
